@@ -9,6 +9,18 @@ NOTES = ("Every check is decided by TLA+ specifications under spec/ checked with
 NOT_APPLICABLE = {}
 
 CHECKS = {
+    "C07": {
+        "text": "OnceEventLocal.tla models the single-threaded event as a call stack: one action per access to the event (state get/set/replace, cell "
+                "reads/writes, release) in the order of core/local.rs, and at every waker clone / wake / drop the specification may push any "
+                "legal operation of the other endpoint (re-entrancy) or return; TLC explores the whole tree of nestings (deadlock check on) and "
+                "checks the API judge OnceEventAbs, exactly one release, no access after release, no uninitialised cell access, no unreachable "
+                "arm. TLC-generated programs (top-level ops + ops inside the k-th callback invocation) are replayed on the real LocalEvent with a "
+                "scripted waker vtable over boxed, embedded, pooled and lake storage; every access, callback and release is logged through the "
+                "folo_verif hooks and judged by TLC (Trace_OnceEventAbs incl. access-after-release).",
+        "note": "Bounds: MaxPolls 2 (thorough 3), 2 operations per callback invocation, nesting bounded by construction (each endpoint on the "
+                "stack at most once). Trusted: TLC, hooks reporting every access, scripted vtable.",
+        "technique": "TLA+ call-stack explorer checked by TLC; TLC-generated callback programs replayed on the real code; trace validation by TLC",
+    },
     "C05": {
         "text": "OnceEventSync.tla transcribes core/sync.rs (set, sender drop, poll arms, is_set, into_value, final_poll) one action per atomic "
                 "operation / fence / cell access, memory through an explicit RC11 release/acquire model (spec/lib/RC11.tla) whose "
